@@ -235,7 +235,7 @@ def _cost_key(spec):
 
 
 def shards(tier, seed):
-    target_ms = 7000.0 if tier == 'quick' else 22000.0
+    target_ms = 7000.0 if tier == 'quick' else 32000.0
     out = []
     for spec in _specs(tier, seed):
         n_outer = len(_outer(spec['space'], spec['S'], spec['kmax'], _variant(spec)))
